@@ -233,6 +233,17 @@ fn create_doc_for_subexpression_considering_precedence_level(
   }
 }
 
+/// Whether the expression is `x op y op z ...` with only `op` on its left spine,
+/// so that `a op (x op y op z)` can be printed as `a op x op y op z`.
+fn is_left_chain_of_operator(expression: &expr::E<()>, operator: expr::BinaryOperator) -> bool {
+  match expression {
+    expr::E::Binary(e) if e.operator.precedence() == operator.precedence() => {
+      e.operator == operator && is_left_chain_of_operator(&e.e1, operator)
+    }
+    _ => true,
+  }
+}
+
 fn create_doc_for_if_else(
   heap: &Heap,
   comment_store: &CommentStore,
@@ -635,9 +646,13 @@ fn create_doc_without_preceding_comment(
         ]);
       }
       if e.e2.precedence() == expression.precedence() {
-        // For the commutative operators, we can remove parentheses.
+        // For the commutative operators, we can remove parentheses,
+        // but only when the nested expression only uses the same operator:
+        // `a * (b / c)` != `a * b / c` and `a * (b / c * d)` != `a * b / c * d`.
+        let same_operator = is_left_chain_of_operator(&e.e2, e.operator);
         match e.operator {
           expr::BinaryOperator::MINUS | expr::BinaryOperator::DIV | expr::BinaryOperator::MOD => {}
+          _ if !same_operator => {}
           _ => {
             return Document::concat(vec![
               create_doc_for_subexpression_considering_precedence_level(
